@@ -12,6 +12,8 @@ CLAIMED = {
              note="stubs: int() in coba.random identity on proxies; libm by contract; arbitrary-stream stub justified by the bijection obligation; seed=None and |bounds|>2^20 outside", engine='symx + z3||cvc5 FP lemmas'),
  'C06': dict(design='C06', text="The real SequentialCB.evaluate (SafeLearner, Finalize, BatchSafe, OpeRewards IPS, Unbatch, reward classes) runs on environments with symbolic contexts, rewards, logged rewards/probabilities and extra fields against a recording learner double whose picks are solver-enumerated and whose probabilities are symbolic; the full call trace and every yielded row are compared with the statement for all learn x eval x record-set x shape combinations, incl. rejection of environments lacking required fields, varying action sets and PMF-answering learners.",
              note="N<=2 (3 thorough); dr/dm, batched environments and torch outside the claim"),
+ 'C09': dict(design='C09', text="Take/Slice/Shuffle/Reservoir/Sort/Riffle/Where/Cache/Chunk/Params/Identity/Batch+Unbatch and the Environments shortcuts run on interaction sequences with symbolic features and symbolic parameters; randomised filters run on an arbitrary grid-valued uniform stream (so permutation and distinct-sample claims hold for every seed), libm by contract for Reservoir; outputs compared with explicit reference models (prefix, slice, stable sort, permutation, bounds) by z3.",
+             note="N<=3..4; determinism in the seed on concrete seeds only; torch batches and Sort() on scalar contexts outside"),
  'C13': dict(design='C13', text="Row pipelines built from the real HeadRows/EncodeRows/DropRows/LabelRows over list/tuple/LazyDense/dict/LazySparse bases run on symbolic integer cells with affine encoders; symbolic positions and row predicates fork in the solver; every access kind, in forward and reverse order, is compared with an eager list/dict model; plus the real ArffReader's lazy rows over a grid of missing-value placements.",
              note="width<=3 (4 thorough), 2 rows; EncodeCatRows, negative/out-of-range positions outside the claim"),
  'C17': dict(design='C17', text="Table.insert/index/where/groupby/copy run on symbolic integer cells; orderings are decided by z3 inside the real sorted/bisect calls; every operator, form, index column list and short operation history within the bounds is compared with a row-by-row list model. Bounded (rows<=3 quick, <=4 thorough), exhaustive within the bound.",
